@@ -835,7 +835,13 @@ fn mandatory_whitespace(m: &Model, ctx: &mut Ctx) {
             // accepted shape: ... many0( alt( ( comment, [into_inner(] multispace1 [)] ) ) )
             let inner: Vec<&str> = chain.iter().map(|x| x.as_str()).filter(|x| *x != "into_inner").collect();
             // many1(alt((comment, multispace1))) demands *some* trivia, which a comment alone satisfies (between two words)
-            let ok = inner.len() >= 2 && inner[inner.len() - 1] == "alt" && ["many0", "many0_count", "fold_many0", "many1", "many1_count"].contains(&inner[inner.len() - 2]);
+            let in_trivia_loop = inner.len() >= 2 && inner[inner.len() - 1] == "alt" && ["many0", "many0_count", "fold_many0", "many1", "many1_count"].contains(&inner[inner.len() - 2]);
+            // inside a trivia loop the white-space class must be the full one: spaces, tabs *and* line breaks
+            if in_trivia_loop && name != "multispace1" {
+                ctx.violate("C13.mandatory", &format!("trivia-class:{}", key), &f.file, line,
+                    &format!("`{}` in `{}` skips trivia with `{}`, which does not accept every white-space character (spaces, tabs, LF, CR LF): a line break at this place is rejected although a blank is accepted", name, f.name, name));
+            }
+            let ok = in_trivia_loop;
             if !ok {
                 ctx.violate("C13.mandatory", &format!("whitespace-required:{}", key), &f.file, line,
                     &format!("`{}` in `{}` (under {}) demands at least one whitespace character at this place: a layout with no blank there — a comment or the next token directly after the previous one — is rejected although the tokens are separable", name, f.name, if chain.is_empty() { "no combinator".to_string() } else { chain.join("(") }));
